@@ -3,6 +3,7 @@ CONSTANTS
   F = 0
   NoPos <- EmptyPos
   MaxLoops = 8
+  RemakeMissing = TRUE
   Force = TRUE
   MaxPages = 0
   Chgs = {}
